@@ -123,7 +123,12 @@ UpdateContracts(g, r, line) ==
                              /\ Chk("C02.Level", line, C02Level(x, r))
                         ELSE Chk("C02.Untouched", line, ElevUntouched(x, r))
      /\ (Has("C04") /\ last.k = "single" /\ re[1]) => Chk("C04.SteepestDescent", line, C04(x, r, re[2], re[3]))
-     /\ (Has("C05") /\ last.k = "multi" /\ re[1]) => Chk("C05.Partition", line, C05(x, r, re[2], re[3], last.p))
+     /\ (Has("C05") /\ last.k = "multi" /\ re[1]) =>
+            /\ Chk("C05.Terminals", line, C05Terminals(x, r, re[2]))
+            /\ Chk("C05.Receivers", line, C05Receivers(x, r, re[2]))
+            /\ Chk("C05.WeightsFinite", line, C05Finite(x, r, re[2]))
+            /\ Chk("C05.WeightsSumToOne", line, C05SumToOne(x, r, re[2]))
+            /\ re[3] => Chk("C05.WeightsProportional", line, C05Proportional(x, r, re[2], last.p))
 
 KeyOf(ops, zin, mask, bl) == [ops |-> Canon(ops), zin |-> zin, mask |-> mask, bl |-> bl]
 
